@@ -17,7 +17,7 @@ from paths import CORPUS
 PROP = 'C09'
 VARIANTS = ['tsan-direct']
 RULE = ('Seeded generator: rounds x (2..8 threads x 5..40 jobs), texts of 0..19 characters drawn with locality from the font\'s own cmap, 6 texts shared by all threads of a round, dir 0..7, shared font or NULL, '
-        'feature settings, perturbation = 0..7 sched_yield + spin. Fonts: shipped (Padauk, Scheherazade, Awami_test with collision passes, general, charis) and synthesised. '
+        'feature settings, perturbation = 0..7 sched_yield + spin. The shared face is made by gr_make_face_with_ops (5 rounds in 8), the deprecated gr_make_face_with_seg_cache_and_ops (2 in 8) or a file-face constructor (1 in 8; no callback ledger there). Fonts: shipped (Padauk, Scheherazade, Awami_test with collision passes, general, charis) and synthesised. '
         'Non-trivial round: >= 2 jobs of different threads overlapped in time and >= 1 rule fired. distinct_nontrivial counts such rounds (each round is a distinct (seed, font, round) workload).')
 ASSUME = ['ThreadSanitizer sees all accesses of the library and harness (both compiled with -fsanitize=thread); races inside uninstrumented libc calls would be missed', 'schedules are sampled, not enumerated']
 
@@ -103,6 +103,8 @@ def main(tier, seed, workers):
             nt += res['nontrivial']
             for k in ('rounds', 'jobs_overlapping_in_time', 'jobs_with_rules_fired'):
                 m['classes'][k] = m['classes'].get(k, 0) + res[k]
+            for k, v in (res.get('rounds_by_constructor') or {}).items():
+                m['classes']['rounds_shared_face_from_' + k] = m['classes'].get('rounds_shared_face_from_' + k, 0) + v
             if res.get('sample') and len(m['samples']) < 4:
                 m['samples'].append(res['sample'])
     mm = fw.merge([dict(m, nontrivial=[], error=None), dict(ctx.rec.dump(), error=None)])
